@@ -399,8 +399,14 @@ def select(func, sel):
 def gen_elt(desc, tree):
     """comprehension element: check the iteration structure literally, translate the element"""
     func = find_func(tree, desc["func"])
+    # optional `within`: the comprehension must be the sole argument of a call to that function (e.g. "all")
+    within = desc.get("within")
+    sole_args = {id(c.args[0]) for c in ast.walk(func)
+                 if isinstance(c, ast.Call) and len(c.args) == 1 and not c.keywords and ast.unparse(c.func) == within}
     for n in ast.walk(func):
         if isinstance(n, ast.GeneratorExp | ast.ListComp) and len(n.generators) == 1:
+            if within is not None and id(n) not in sole_args:
+                continue
             g = n.generators[0]
             if ast.unparse(g.iter) == desc["iter"] and ast.unparse(g.target) == desc["target"] and not g.ifs:
                 # the context the comprehension sits in must be the expected one
